@@ -11,7 +11,7 @@ import (
 )
 
 // DataClass names a family of plaintexts; Make realises one member.
-var DataClasses = []string{"empty", "one", "zeros", "zeroprefix", "run", "random", "text", "periodic", "xx", "alternating", "sparse", "ramp"}
+var DataClasses = []string{"empty", "one", "zeros", "zeroprefix", "run", "random", "text", "periodic", "xx", "alternating", "sparse", "ramp", "nearrandom"}
 
 // MakeData builds a plaintext of roughly n bytes from a class and a seed.
 func MakeData(class string, n int, seed int64) []byte {
@@ -71,6 +71,16 @@ func MakeData(class string, n int, seed int64) []byte {
 		b := make([]byte, n)
 		for i := 0; i < n/50+1 && n > 0; i++ {
 			b[r.Intn(n)] = byte(r.Intn(256))
+		}
+		return b
+	case "nearrandom":
+		// uniform over an alphabet of 216..240 byte values: compresses to 97-100 % of its
+		// length, i.e. right at the writer's "store this chunk raw" decision
+		a := 216 + r.Intn(25)
+		perm := r.Perm(256)
+		b := make([]byte, n)
+		for i := range b {
+			b[i] = byte(perm[r.Intn(a)])
 		}
 		return b
 	case "ramp":
